@@ -119,6 +119,10 @@ fn main() {
             // lvmc adhoc <C07|C08|C13|C18> "<desc>"  -> runs the history checking every step
             common::install_panic_hook();
             common::install_flush_counter();
+            if args[2] == "C11" {
+                // lvmc adhoc C11 "<config idx>;<sql>;<sql>..." -> runs the request sequence with canaries
+                std::process::exit(c11::adhoc(&args[3]));
+            }
             let flavor = match args[2].as_str() {
                 "C07" => hist::Flavor::C07,
                 "C08" => hist::Flavor::C08,
